@@ -354,33 +354,41 @@ def main(tier, replay_path):
             ck.violation("C14.model", "Registry.tla invariant violated", {"tlc": r.out[-3000:]})
         ck.add_tlc(r)
         ck.cov["counters"]["registry_model_states"] = r.distinct
-        # ---- R
-        hs = gen_histories(ck, "bfs", 0, 2, common.SEED)
-        ck.cov["counters"]["bfs_histories_depth2"] = len(hs)
-        n, depth = (1600, 14) if tier == "quick" else (40000, 22)
-        sim = gen_histories(ck, "sim", n // 2, depth, common.SEED + 1) + gen_histories(ck, "sim", n // 2, depth, common.SEED + 2, preload=1)
-        ck.cov["counters"]["simulated_histories"] = len(sim)
-        hs += sim
-        b2 = gen_histories(ck, "bfs", 0, 2, common.SEED, preload=1)
-        ck.cov["counters"]["bfs_histories_depth2_populated"] = len(b2)
-        hs += b2
-        if tier == "thorough":
-            b3 = gen_histories(ck, "bfs", 0, 3, common.SEED)
-            ck.cov["counters"]["bfs_histories_depth3"] = len(b3)
-            hs += b3
-    with cf.ProcessPoolExecutor(max_workers=common.NCPU) as ex:
-        outs = list(ex.map(replay, hs, chunksize=8))
-    ops = {}
-    for h, o in zip(hs, outs):
-        for i, clause, detail in o:
-            ck.violation(clause, norm_sig(detail), {"history": h, "step": i, "detail": detail})
-        ck.nontrivial("/".join(x["op"] + ":" + x["out"] for x in h))
-        for x in h:
-            k = x["op"] + ":" + x["out"]
-            ops[k] = ops.get(k, 0) + 1
+        # ---- R  (batches are generated, replayed and dropped one after the other: the histories carry a full view per step)
+        n, depth = (1600, 14) if tier == "quick" else (24000, 22)
+
+        def batches():
+            yield "bfs_histories_depth2", lambda: gen_histories(ck, "bfs", 0, 2, common.SEED)
+            for k in range(max(1, n // 4000)):
+                m = min(n, 4000)
+                yield "simulated_histories", lambda k=k, m=m: (gen_histories(ck, "sim", m // 2, depth, common.SEED + 1 + 10 * k) +
+                                                              gen_histories(ck, "sim", m // 2, depth, common.SEED + 2 + 10 * k, preload=1))
+            yield "bfs_histories_depth2_populated", lambda: gen_histories(ck, "bfs", 0, 2, common.SEED, preload=1)
+            if tier == "thorough":
+                yield "bfs_histories_depth3", lambda: gen_histories(ck, "bfs", 0, 3, common.SEED)
+    ops, total, nh, last = {}, 0, 0, None
+    todo = [("replay", lambda: hs)] if replay_path else batches()
+    for name, make in todo:
+        hs = make()
+        ck.cov["counters"][name] = ck.cov["counters"].get(name, 0) + len(hs)
+        with cf.ProcessPoolExecutor(max_workers=common.NCPU) as ex:
+            outs = list(ex.map(replay, hs, chunksize=8))
+        for h, o in zip(hs, outs):
+            for i, clause, detail in o:
+                ck.violation(clause, norm_sig(detail), {"history": h, "step": i, "detail": detail})
+            ck.nontrivial("/".join(x["op"] + ":" + x["out"] for x in h))
+            for x in h:
+                k = x["op"] + ":" + x["out"]
+                ops[k] = ops.get(k, 0) + 1
+        total += sum(len(h) for h in hs)
+        nh += len(hs)
+        if hs:
+            last = hs[-1]
+        del outs
+    hs = [last] if last else []
     ck.cov["counters"]["operations"] = ops
-    ck.cov["evaluations"] = sum(len(h) for h in hs)
-    ck.cov["traces_validated_against_impl"] = len(hs)
+    ck.cov["evaluations"] = total
+    ck.cov["traces_validated_against_impl"] = nh
     ck.cov["rule"] = ("edit histories over 3 node, 2 link, 2 pattern, 2 curve, 1 source, 1 control names generated by TLC from "
                       "Registry.tla (every history of length 2 exhaustively; random histories of length 14 / 22 by -simulate); "
                       "after every operation the real model's views must equal the view the spec derives from the primary data; "
